@@ -242,6 +242,8 @@ type opIn struct {
 	Off  int64  `json:"off,omitempty"`
 	Len  int64  `json:"len,omitempty"`
 	Rec  bool   `json:"rec,omitempty"`
+	// get: size of the buffer the object is read with (0 = 512, like the first read of io.ReadAll)
+	Chunk int `json:"chunk,omitempty"`
 }
 
 type input struct {
@@ -395,7 +397,32 @@ func doOp(ctx context.Context, b objstore.Bucket, op opIn) (res outcome) {
 	case "getrange":
 		return readAll(b.GetRange(ctx, op.Name, op.Off, op.Len))
 	case "get":
-		return readAll(b.Get(ctx, op.Name))
+		rc, err := b.Get(ctx, op.Name)
+		if err != nil {
+			return outcome{kind: "err", msg: err.Error()}
+		}
+		defer rc.Close()
+		chunk := op.Chunk
+		if chunk <= 0 {
+			chunk = 512
+		}
+		// consume the reader to EOF in reads of `chunk` bytes
+		var data []byte
+		buf := make([]byte, chunk)
+		for {
+			n, err := rc.Read(buf)
+			data = append(data, buf[:n]...)
+			if err == io.EOF {
+				break
+			}
+			if err != nil {
+				return outcome{kind: "err", msg: err.Error()}
+			}
+		}
+		if data == nil {
+			data = []byte{}
+		}
+		return outcome{kind: "bytes", bytes: data}
 	case "exists":
 		ok, err := b.Exists(ctx, op.Name)
 		if err != nil {
@@ -512,7 +539,11 @@ func run(raw json.RawMessage) (common.Case, error) {
 				merged = true
 			}
 		case "get":
-			opCoq = common.App("OGet", common.N(t.id(op.Name)))
+			chunk := op.Chunk
+			if chunk <= 0 {
+				chunk = 512
+			}
+			opCoq = common.App("OGet", common.N(t.id(op.Name)), common.Z(int64(chunk)))
 		case "exists":
 			opCoq = common.App("OExists", common.N(t.id(op.Name)))
 		case "attrs":
@@ -590,9 +621,45 @@ func genSparse(r *rand.Rand, tier string) input {
 	return in
 }
 
+// genGets: objects around and above MaxCacheableSize, read in small chunks, several times.
+func genGets(r *rand.Rand, tier string) input {
+	var in input
+	in.SubrangeSize = common.Pick(r, int64(4), 16, 100)
+	in.MaxSubRequests = 0
+	in.MaxCacheable = common.Pick(r, 1, 4, 5, 16, 20, 64)
+	in.CacheSeed = r.Int63n(1 << 30)
+	in.Drop = common.Pick(r, 0, 0, 0, 20)
+	in.Objects = map[string]int{}
+	names := []string{"a/obj1", "a/obj2", "top"}
+	for _, n := range names[:1+r.Intn(3)] {
+		in.Objects[n] = common.Pick(r, 0, 1, in.MaxCacheable-1, in.MaxCacheable, in.MaxCacheable+1, 2*in.MaxCacheable+3, in.MaxCacheable+r.Intn(40))
+		if in.Objects[n] < 0 {
+			in.Objects[n] = 0
+		}
+	}
+	var present []string
+	for n := range in.Objects {
+		present = append(present, n)
+	}
+	sort.Strings(present)
+	nOps := 2 + r.Intn(6)
+	for i := 0; i < nOps; i++ {
+		op := opIn{Kind: "get", Name: present[r.Intn(len(present))]}
+		op.Chunk = common.Pick(r, 0, 1, 2, 3, in.MaxCacheable, in.MaxCacheable+1, 1+r.Intn(in.MaxCacheable), 1000)
+		in.Ops = append(in.Ops, op)
+		if r.Intn(4) == 0 {
+			in.Ops = append(in.Ops, opIn{Kind: common.Pick(r, "exists", "attrs"), Name: op.Name})
+		}
+	}
+	return in
+}
+
 func genOne(r *rand.Rand, tier string) input {
 	if r.Intn(4) == 0 {
 		return genSparse(r, tier)
+	}
+	if r.Intn(6) == 0 {
+		return genGets(r, tier)
 	}
 	var in input
 	in.SubrangeSize = common.Pick(r, int64(1), 2, 3, 4, 5, 7, 8, 10, 16, 100)
@@ -673,6 +740,17 @@ func genOne(r *rand.Rand, tier string) input {
 			}
 		case k < 14:
 			op.Kind = "get"
+			op.Chunk = common.Pick(r, 0, 0, 1, 2, 3, 5, 7, 16, 64)
+			if r.Intn(2) == 0 && in.MaxCacheable > 0 { // a read size that fits into the cacheable limit
+				op.Chunk = 1 + r.Intn(in.MaxCacheable)
+			}
+			// the same object again (served from the content cache when it was stored)
+			in.Ops = append(in.Ops, op)
+			if r.Intn(3) == 0 {
+				op2 := op
+				op2.Chunk = common.Pick(r, 0, 1, 4, 9)
+				in.Ops = append(in.Ops, op2)
+			}
 		case k < 16:
 			op.Kind = "exists"
 		case k < 18:
